@@ -138,6 +138,26 @@ Definition check_conc (progs : list (list nat)) (sched : list nat) (os : list (l
   let s := Conc.run true s0 sched in
   ((if lists_eqb (map (fun t => rev (Conc.results t)) (Conc.threads s)) os then 0 else 1), conc_oracle os).
 
+(* ---- the same with prepare-flush / flush between the callers' steps: programs, events (caller number, number of callers =
+   PrepareFlush, above = Flush), observed results per caller, what is found afterwards for every name ---- *)
+From LinDBV.C09 Require Flush.
+Definition fopt_eqb (a b : option nat) : bool :=
+  match a, b with Some x, Some y => x =? y | None, None => true | _, _ => false end.
+Definition flush_oracle (os : list (list (nat * nat))) (final : list (nat * option nat)) : nat :=
+  let all := concat os in
+  let found n := match List.find (fun x => fst x =? n) final with Some x => snd x | None => None end in
+  if negb (forallb (fun p => forallb (fun q => Bool.eqb (fst p =? fst q) (snd p =? snd q)) all) all) then 112
+  else if negb (forallb (fun p => fopt_eqb (found (fst p)) (Some (snd p))) all) then 113
+  else 0.
+Definition check_flush_gen (rf gc : bool) (progs : list (list nat)) (events : list nat) (os : list (list (nat * nat)))
+    (final : list (nat * option nat)) : nat * nat :=
+  let s := Flush.run rf gc (Flush.init progs) events in
+  ((if lists_eqb (map (fun t => rev (Flush.results t)) (Flush.threads s)) os
+       && forallb (fun x => fopt_eqb (Flush.lookup s (fst x)) (snd x)) final
+       && forallb (fun t => match Flush.todo t with [] => true | _ => false end) (Flush.threads s) then 0 else 1),
+   flush_oracle os final).
+Definition check_flush := check_flush_gen true true.
+
 (* ---- concurrent callers creating fields / tag keys of one metric: programs, schedule of micro-steps (a request is the
    read outside the lock, then the locked part), observed results per caller in call order, what is found afterwards ---- *)
 From LinDBV.C09 Require Schema.
